@@ -524,20 +524,26 @@ val insert_uniq : text -> text list -> text list
 
 val sort_uniq : text list -> text list
 
+type uentry = text list * text option
+
 type pstate =
 | PScan of text list * bool
 | PAlias of text list
-| PDone of text list
+| PDone of uentry list
 
-val leaf : text list -> text list -> text option -> text list
+val leaf : text list -> text list -> text option -> uentry list
 
-val pfinish : text list -> pstate -> text list
+val render_leaf : uentry -> text
+
+val pfinish : text list -> pstate -> uentry list
 
 val parse_loop :
-  (text list -> item -> text list) -> bool -> text list -> pstate -> item
-  list -> text list
+  (text list -> item -> uentry list) -> bool -> text list -> pstate -> item
+  list -> uentry list
 
-val parse_grp : bool -> text list -> item -> text list
+val parse_grp : bool -> text list -> item -> uentry list
+
+val parse_entries : bool -> item list -> uentry list
 
 val parse_use : bool -> item list -> text list
 
